@@ -19,6 +19,7 @@ import (
 	"strings"
 	"sync"
 	"testing"
+	"time"
 
 	"github.com/tetratelabs/wazero"
 	"github.com/tetratelabs/wazero/api"
@@ -39,14 +40,20 @@ type Step struct {
 	Fn    int    `json:"fn,omitempty"`    // call: 0 = run, 1 = run2
 	Start int    `json:"start,omitempty"` // start: 1 = wasm start section, 2 = exported _start
 	Ops   []int  `json:"ops"`             // script bytes, outermost first
-	Desc  string `json:"desc,omitempty"`
+	// Ctx is the context of the step: "" = Background; "cancel" = a context.WithCancel that is
+	// cancelled right after the step returned; "deadline" = a context whose deadline is reached
+	// right after the step returned. Either way the context is live for the whole call.
+	Ctx  string `json:"ctx,omitempty"`
+	Desc string `json:"desc,omitempty"`
 }
 
 // Case is a replayable history.
 type Case struct {
 	Engine string `json:"engine"`
 	NInst  int    `json:"ninst"`
-	Steps  []Step `json:"steps"`
+	// CloseOnDone runs the history with RuntimeConfig.WithCloseOnContextDone(true)
+	CloseOnDone bool   `json:"close_on_context_done,omitempty"`
+	Steps       []Step `json:"steps"`
 }
 
 // ---- host side ----
@@ -167,9 +174,10 @@ func guestBin(peer string, start int) []byte {
 	return b
 }
 
-func newWorld(ctx context.Context, engine string, ninst int) (*world, error) {
+func newWorld(ctx context.Context, engine string, ninst int, closeOnDone bool) (*world, error) {
 	w := &world{ctx: ctx}
-	w.rt = wazero.NewRuntimeWithConfig(ctx, wz.Config(engine).WithCompilationCache(cacheFor(engine)))
+	w.rt = wazero.NewRuntimeWithConfig(ctx, wz.Config(engine).WithCloseOnContextDone(closeOnDone).
+		WithCompilationCache(cacheFor(fmt.Sprintf("%s/%v", engine, closeOnDone))))
 	if _, err := wasi_snapshot_preview1.Instantiate(ctx, w.rt); err != nil {
 		return nil, err
 	}
@@ -199,11 +207,15 @@ func newWorld(ctx context.Context, engine string, ninst int) (*world, error) {
 }
 
 func (w *world) instantiate(peer string, start int, name string) (api.Module, error) {
+	return w.instantiateCtx(w.ctx, peer, start, name)
+}
+
+func (w *world) instantiateCtx(ctx context.Context, peer string, start int, name string) (api.Module, error) {
 	cm, err := w.rt.CompileModule(w.ctx, guestBin(peer, start))
 	if err != nil {
 		return nil, fmt.Errorf("harness: compile: %w", err)
 	}
-	return w.rt.InstantiateModule(w.ctx, cm, wazero.NewModuleConfig().WithName(name))
+	return w.rt.InstantiateModule(ctx, cm, wazero.NewModuleConfig().WithName(name))
 }
 
 // ---- classification ----
@@ -396,6 +408,51 @@ func (w *world) checkRegistry(m *model) string {
 	return ""
 }
 
+// doneLater is a context whose deadline is "reached" when expire is called: Done is closed and
+// Err reports context.DeadlineExceeded, like a context.WithDeadline whose time has come, but at a
+// moment the harness chooses (after the call returned) instead of the wall clock.
+type doneLater struct {
+	context.Context
+	mu   sync.Mutex
+	done chan struct{}
+	err  error
+}
+
+func (d *doneLater) Done() <-chan struct{} { return d.done }
+func (d *doneLater) Err() error {
+	d.mu.Lock()
+	defer d.mu.Unlock()
+	return d.err
+}
+func (d *doneLater) Deadline() (time.Time, bool) { return time.Now().Add(time.Hour), true }
+func (d *doneLater) expire() {
+	d.mu.Lock()
+	defer d.mu.Unlock()
+	if d.err == nil {
+		d.err = context.DeadlineExceeded
+		close(d.done)
+	}
+}
+
+func stepContext(parent context.Context, kind string) (context.Context, func()) {
+	settle := func() {
+		// give a goroutine that (wrongly) still watches the context the chance to act before the
+		// state is compared
+		for i := 0; i < 3; i++ {
+			runtime.Gosched()
+		}
+	}
+	switch kind {
+	case "cancel":
+		ctx, cancel := context.WithCancel(parent)
+		return ctx, func() { cancel(); settle() }
+	case "deadline":
+		d := &doneLater{Context: parent, done: make(chan struct{})}
+		return d, func() { d.expire(); settle() }
+	}
+	return parent, func() {}
+}
+
 // ---- running a case ----
 
 type runStats struct {
@@ -414,7 +471,7 @@ func runCase(c *Case) (msg string, st runStats) {
 		return "", st
 	}
 	ctx := context.Background()
-	w, err := newWorld(ctx, c.Engine, c.NInst)
+	w, err := newWorld(ctx, c.Engine, c.NInst, c.CloseOnDone)
 	if err != nil {
 		return "harness: cannot build the world: " + err.Error(), st
 	}
@@ -427,6 +484,9 @@ func runCase(c *Case) (msg string, st runStats) {
 	lbl := func(s string) { st.labels[s] = true }
 	lbl("engine:" + c.Engine)
 	lbl(fmt.Sprintf("instances:%d", c.NInst))
+	if c.CloseOnDone {
+		lbl("close-on-context-done")
+	}
 
 	for k, s := range c.Steps {
 		where := func() string {
@@ -436,6 +496,12 @@ func runCase(c *Case) (msg string, st runStats) {
 			continue
 		}
 		script := pack(s.Ops)
+		// the context of this step; finish() makes it done once the step has returned, which must
+		// not have any effect: the call is over, whether it succeeded or its failure was contained
+		sctx, finish := stepContext(ctx, s.Ctx)
+		if s.Ctx != "" {
+			lbl("step-context:" + s.Ctx)
+		}
 		*m = model{insts: m.insts, nmain: m.nmain}
 		w.trace = nil
 		for _, in := range m.insts {
@@ -452,9 +518,9 @@ func runCase(c *Case) (msg string, st runStats) {
 			func() {
 				defer func() { escaped = recover() }()
 				if s.Fn == 1 {
-					res, cerr = w.fns[s.Inst][1].Call(ctx, script, 0x1234, api.EncodeF64(3.0))
+					res, cerr = w.fns[s.Inst][1].Call(sctx, script, 0x1234, api.EncodeF64(3.0))
 				} else {
-					res, cerr = w.fns[s.Inst][0].Call(ctx, script)
+					res, cerr = w.fns[s.Inst][0].Call(sctx, script)
 				}
 			}()
 			if escaped != nil {
@@ -522,7 +588,7 @@ func runCase(c *Case) (msg string, st runStats) {
 			var escaped any
 			func() {
 				defer func() { escaped = recover() }()
-				mod, ierr = w.instantiate(fmt.Sprintf("m%d", s.Inst), s.Start, "s")
+				mod, ierr = w.instantiateCtx(sctx, fmt.Sprintf("m%d", s.Inst), s.Start, "s")
 			}()
 			if escaped != nil {
 				return fmt.Sprintf("%s: a panic escaped InstantiateModule: %v", where(), escaped), st
@@ -551,6 +617,7 @@ func runCase(c *Case) (msg string, st runStats) {
 		default:
 			continue
 		}
+		finish()
 		if m.maxDepth >= 2 {
 			lbl(fmt.Sprintf("nesting-depth:%d", m.maxDepth))
 		}
@@ -677,6 +744,7 @@ func genOps(t *rapid.T, ninst int, recBudget *int, inStart bool) []int {
 
 func genCase(t *rapid.T) *Case {
 	c := &Case{Engine: rapid.SampledFrom(wz.Engines).Draw(t, "engine"), NInst: rapid.IntRange(1, 3).Draw(t, "ninst")}
+	c.CloseOnDone = rapid.Bool().Draw(t, "close-on-context-done")
 	n := rapid.IntRange(5, 40).Draw(t, "nsteps")
 	// stack exhaustion costs 0.1-0.6 s under the compiler: at most 2 per history, and only in a
 	// share of the histories
@@ -699,6 +767,7 @@ func genCase(t *rapid.T) *Case {
 			continue
 		}
 		before := recBudget
+		s.Ctx = rapid.SampledFrom([]string{"", "", "cancel", "cancel", "deadline"}).Draw(t, "step-context")
 		s.Ops = genOps(t, c.NInst, &recBudget, s.Kind == "start")
 		s.Desc = describeOps(s.Ops)
 		c.Steps = append(c.Steps, s)
@@ -751,10 +820,21 @@ func TestReplay(t *testing.T) {
 	if p == "" {
 		t.Skip()
 	}
-	var c Case
-	if _, err := evid.LoadReplay(p, &c); err != nil {
+	var rc struct {
+		Case
+		Frames *FrameCase `json:"frames"`
+	}
+	if _, err := evid.LoadReplay(p, &rc); err != nil {
 		t.Fatal(err)
 	}
+	if rc.Frames != nil {
+		if msg := runFrames(rc.Frames); msg != "" {
+			evid.Violation("replay", rc, "%s", msg)
+			t.Fatal(msg)
+		}
+		return
+	}
+	c := rc.Case
 	if msg, _ := runCase(&c); msg != "" {
 		evid.Violation("replay", c, "%s", msg)
 		t.Fatal(msg)
